@@ -100,3 +100,4 @@ def count(name, lines, ib, stats, meta):
             if len(stats['samples']) < 6 and st0 != st1:
                 stats['samples'].append({'state': st0, 'input': b.op.split()[2], 'elapsed_s': int(t1) - int(t0), 'new_state': st1})
         if 'map' in b.kv: prev = b.kv['map']
+EXPLORE = dict(oracle=False, skip_ops=('set_map', 'set_sess', 'set_enum', 'band_set'), ops=('ss_map', 'adv', 'tick', 'map_touch', 'map_charge', 'st_add', 'st_remove', 'st_find'), mtu=False, num={'ss_map': {2: (-128, 255)}, 'adv': {1: (0, 400000)}})
